@@ -121,6 +121,11 @@ class HarnessError(Exception):
     pass
 
 
+class _StopShrink(KeyboardInterrupt):
+    """Raised from inside the test to end Hypothesis' shrink phase when its
+    time budget is used up (Hypothesis re-raises KeyboardInterrupt at once)."""
+
+
 def load_known(prop_id: str) -> dict[str, dict[str, Any]]:
     path = os.path.join(ROOT, 'known_findings.json')
     try:
@@ -242,9 +247,8 @@ def _run_hypothesis(mod: Any, tier: str, seed: int, shard: int, acc: _Acc,
         def test(case: Any) -> None:
             case = canon(case)
             if state['t_first'] is not None \
-                    and time.time() - state['t_first'] > shrink_budget \
-                    and case_hash(case) != state['best_hash']:
-                return  # shrink budget used up: freeze at the best so far
+                    and time.time() - state['t_first'] > shrink_budget:
+                raise _StopShrink()   # keep the best reproduction so far
             out = mod.run_case(case)
             if state['t_first'] is None:
                 unknown = acc.add(out, known)
@@ -275,7 +279,7 @@ def _run_hypothesis(mod: Any, tier: str, seed: int, shard: int, acc: _Acc,
             print_blob=False)(wrapped)
         try:
             wrapped()
-        except Exception:
+        except (Exception, _StopShrink):
             if state['sig'] is None:
                 raise
             acc.violations.setdefault(
